@@ -301,6 +301,41 @@ Proof.
   replace (d - 48 <? 10) with true by (symmetry; apply N.ltb_lt; lia). reflexivity.
 Qed.
 
+(* ------------------------------------------------------------------ Content-Length as the server wrote it *)
+Lemma dec_value_eval ds : forall acc v, dec_value ds acc = Some v -> eval 10 ds acc = Some v.
+Proof.
+  induction ds as [|d ds IH]; intros acc v H; [exact H|].
+  cbn [dec_value] in H. cbn [eval].
+  destruct (is_dec_digit d) eqn:E; [|discriminate].
+  rewrite (dec_digit_in _ E). rewrite N.mul_comm. apply IH. exact H.
+Qed.
+
+Lemma dec_value_digits ds : forall acc v, dec_value ds acc = Some v -> forallb is_dec_digit ds = true.
+Proof.
+  induction ds as [|d ds IH]; intros acc v H; [reflexivity|].
+  cbn [dec_value] in H. cbn [forallb].
+  destruct (is_dec_digit d) eqn:E; [|discriminate]. apply (IH _ _ H).
+Qed.
+
+Lemma wf_clen_parts ds body : wf_clen ds body = true ->
+  ds <> [] /\ dec_value ds 0 = Some (lenN body) /\ lenN body < two64.
+Proof.
+  unfold wf_clen. rewrite !andb_true_iff. intros [[H1 H2] H3]. apply N.ltb_lt in H3.
+  destruct (dec_value ds 0) as [v|]; [|discriminate]. apply N.eqb_eq in H2. subst v.
+  repeat split; try assumption. destruct ds; discriminate.
+Qed.
+
+(* any spelling of the length (leading zeros included) is what PARSENUM_EX(&len, clen, 10, 0) returns *)
+Lemma parse_clen ds n : ds <> [] -> dec_value ds 0 = Some n -> n < two64 ->
+  parsenum_unsigned_m (cstr ds) 0 size_max size_max 10 false = Ok (Some n).
+Proof.
+  intros Hne Hv H. unfold cstr.
+  apply parsenum_digits; try assumption; try discriminate; try reflexivity.
+  - unfold base_ok. lia.
+  - apply dec_value_eval. exact Hv.
+Qed.
+
+
 Lemma take_digits_eval ds : forall acc cnt v c rest,
   forallb is_dec_digit ds = true -> eval 10 ds acc = Some v -> v < sat -> is_dec_digit c = false ->
   take_digits (ds ++ c :: rest) acc cnt = (v, (cnt + length ds)%nat, c :: rest).
